@@ -738,19 +738,23 @@ func main() {
 	var pols []policy
 	nrand := 2
 	if a.Tier == "thorough" {
-		maxN := 4
-		for n := 2; n <= maxN+1; n++ {
+		for n := 2; n <= 5; n++ {
 			pols = append(pols, enumThreshold(n)...)
 			pols = append(pols, policy{fam: 'U', ids: rangeIDs(1, n)})
 		}
-		for n := 2; n <= maxN; n++ {
+		for n := 2; n <= 3; n++ {
 			pols = append(pols, enumCNF(n)...)
 			pols = append(pols, enumGate(n)...)
 		}
-		for n := 2; n <= maxN+1; n++ {
+		rs := vh.NewRng(a.Seed, "C05", "sample4", 0)
+		c4, g4 := enumCNF(4), enumGate(4)
+		for i := 0; i < 40; i++ {
+			pols = append(pols, vh.Pick(rs, c4), vh.Pick(rs, g4))
+		}
+		for n := 2; n <= 4; n++ {
 			pols = append(pols, enumHier(n)...)
 		}
-		nrand = 200
+		nrand = 60
 	} else {
 		// quick: two policies of every family (one small fixed, one drawn from the enumeration by the seed)
 		pick := func(stream string, l []policy) policy { return l[vh.NewRng(a.Seed, "C05", stream, 0).Intn(len(l))] }
@@ -788,10 +792,11 @@ func main() {
 		if pi < len(pols)-nrand {
 			pp = asg.apply(p)
 		}
-		if a.Tier == "thorough" || pi%2 == 0 {
+		both := a.Tier == "thorough" && n <= 3
+		if both || pi%2 == 0 {
 			genDealing(r.k, r, pp, idx)
 		}
-		if a.Tier == "thorough" || pi%2 == 1 {
+		if both || pi%2 == 1 {
 			genDealing(r.b, r, pp, idx)
 		}
 		idx++
